@@ -644,6 +644,29 @@ def expected_bytes(tracks, enc):
     return buf.getvalue().encode(enc, "replace")
 
 
+def provider_view(sc, snap):
+    """{playlist name: tuple of track URIs} as the real provider lists a directory holding `snap`
+    (temporary-file names are replaced by a fixed token so that runs are comparable)."""
+    import files_child
+
+    root = Path(os.path.realpath(tempfile.mkdtemp(prefix="verif-c19-")))
+    try:
+        for k, v in snap.items():
+            if not v.startswith(b"<dir>") and not v.startswith(b"<symlink>"):
+                (root / os.fsdecode(k)).write_bytes(v)
+        prov = files_child.make_provider({"ext": sc.ext, "encoding": sc.enc}, root)
+        try:
+            out = {}
+            for ref in prov.as_list():
+                items = prov.get_items(ref.uri)
+                out[ref.name] = None if items is None else tuple(i.uri for i in items)
+            return out
+        except Exception as e:  # noqa: BLE001
+            return "raise:" + type(e).__name__
+    finally:
+        shutil.rmtree(root, ignore_errors=True)
+
+
 def atomic_stage(chk):
     quick = chk.tier == "quick"
     big = [(f"dummy:{i:05d}-{'x' * (i % 37)}", f"Track number {i}, ä") for i in range(450)]
@@ -769,6 +792,18 @@ def atomic_stage(chk):
         chk.dist("atomic:crash" if what == "kill" else "atomic:fault")
         chk.dist("atomic:at:" + att["kind"])
         add_listing(sc, r, f"{what}@{ai}")
+        # what a client SEES after the crash / failure: as_list() + get_items() of the real provider on
+        # the directory as it was left must be the old or the new listing -- no ghost playlist
+        view = provider_view(sc, r["snapshot"])
+        v_old, v_new = provider_view(sc, {os.fsencode(k): v for k, v in sc.files.items()}), provider_view(sc, b["snapshot"])
+        chk.dist("atomic:listing-after-" + ("crash" if what == "kill" else "fault"))
+        if isinstance(view, str) or (set(view) != set(v_old) and set(view) != set(v_new)) or \
+                any(c not in list(v_old.values()) + list(v_new.values()) for c in view.values()):
+            chk.monitor_failure(
+                "listing_old_or_new", {"call": sc.action, "inject": "crash" if what == "kill" else "fault", "at": att["kind"]},
+                f"{what} at call #{ai} ({att['kind']}): as_list() then shows {sorted(view) if not isinstance(view, str) else view}, "
+                f"neither the old listing {sorted(v_old)} nor the new one {sorted(v_new)}",
+                {**case, "files_left": sorted(os.fsdecode(k) for k in r["snapshot"])})
         problems, temps = classify(sc, r["snapshot"])
         if problems:
             chk.monitor_failure("replace_atomic", {"call": sc.action, "inject": "crash" if what == "kill" else "fault", "at": att["kind"]},
